@@ -30,6 +30,7 @@ class Conn:
         self.inbuf = bytearray()
         self.out = bytearray()
         self.out_total = 0
+        self.dropped = bytearray()
         self.closed = False
         self.eof_flag = False
         self.reset_flag = False
@@ -96,6 +97,8 @@ class Conn:
     # ---- writer API ------------------------------------------------------
     def write(self, data) -> None:
         if self.closed or self.reset_flag:
+            # what the server tried to say after the peer was gone
+            self.dropped += bytes(data)
             return
         data = bytes(data)
         self.out += data
